@@ -338,6 +338,21 @@ def project(root, side, refs=("a", "b")):
         st["lref"][r] = c2i.get(v, -1) if v else 0
         v = pr.get("refs/heads/" + r)
         st["pref"][r] = c2i.get(v, -1) if v else 0
+    st["graft"] = [{"has": False, "p": []} for _ in range(side.n)]
+    gp = os.path.join(g, "info", "grafts")
+    if os.path.exists(gp):
+        with open(gp) as f:
+            for line in f:
+                w_ = line.split()
+                if w_:
+                    if any(x not in c2i for x in w_):
+                        raise Unprojectable("grafts file names an unknown commit")
+                    st["graft"][c2i[w_[0]] - 1] = {"has": True, "p": sorted(c2i[x] for x in w_[1:])}
+    st["shal"] = []
+    sp = os.path.join(g, "shallow")
+    if os.path.exists(sp):
+        with open(sp) as f:
+            st["shal"] = sorted(c2i[x] for x in f.read().split())
     cgp = os.path.join(od, "info", "commit-graph")
     if os.path.exists(cgp):
         ents = cg_commits(cgp)
@@ -581,6 +596,16 @@ def apply(root, side, act, args, who, w, opts, tref):
         pd = os.path.join(g, "objects", "pack")
         src = [k for k in names_all[pkey(p)] if os.path.exists(os.path.join(pd, k + ".bitmap"))]
         _install(os.path.join(pd, src[0] + ".bitmap"), os.path.join(pd, inv[pkey(q)] + ".bitmap"))
+    elif act == "SetGraft":
+        c, P = args
+        os.makedirs(os.path.join(g, "info"), exist_ok=True)
+        with open(os.path.join(g, "info", "grafts"), "a") as f:       # (primary data, written by hand as users do)
+            f.write(" ".join([side.ids[c]["c"]] + [side.ids[p]["c"] for p in sorted(P)]) + "\n")
+    elif act == "SetShallow":
+        c, = args
+        r, cl = repo()
+        r.update_shallow([side.cid(c)], None)
+        done(r, cl)
     elif act == "Reindex":
         wr, v = args
         pd = os.path.join(g, "objects", "pack")
@@ -670,7 +695,9 @@ def strip(root, kinds=("cg", "midx", "bmp", "pref", "idx")):
 
 # --------------------------------------------------------------------------- query battery
 def _exc(e):
-    return "KeyError" if isinstance(e, KeyError) else "exc:" + type(e).__name__
+    if isinstance(e, KeyError) or type(e).__name__ in ("MissingCommitError",):      # "no such commit"
+        return "KeyError"
+    return "exc:" + type(e).__name__
 
 
 def heads_sets(n):
@@ -696,7 +723,7 @@ def battery(repo, side, refs=("a", "b"), light=False):
     o2g = side.o2g()
     n = side.n
     A = {"has": {}, "get": {}, "par": {}, "anc": {}, "mb": {}, "rc": {}, "ro": {}, "miss": {}, "depth": {},
-         "cut": {}, "miss_s": {}, "fshallow": {}, "depth_m": {}}
+         "cut": {}, "miss_s": {}, "fshallow": {}, "depth_m": {}, "walk": {}}
 
     def objs(shas):
         out = []
@@ -732,6 +759,10 @@ def battery(repo, side, refs=("a", "b"), light=False):
             A["par"][str(i)] = commits(repo.parents_provider().get_parents(c))
         except Exception as e:
             A["par"][str(i)] = _exc(e)
+        try:
+            A["walk"][str(i)] = commits(e.commit.id for e in repo.get_walker(include=[c]))
+        except Exception as e:
+            A["walk"][str(i)] = _exc(e)
         try:
             A["depth"][str(i)] = get_depth(st, c)
         except Exception as e:
